@@ -62,6 +62,13 @@ def compare(a, b, ign, ids, setter):
     c = {"kind": "eq", "ign": sorted(ign), "raised": False, "exc": "none", "eq_ab": False, "eq_ba": False, "ne_ab": True, "eq_aa": False, "eq_bb": False, "hash_equal": False, "in_set": False}
     c["na"], c["a"] = project(a, ids)
     c["nb"], c["b"] = project(b, ids)
+    try:
+        # both records have already been hashed and compared under ANOTHER configuration (the empty one):
+        # nothing cached then may leak into the result under `ign`
+        setter(set())
+        hash(a), hash(b), a == b
+    except Exception:
+        pass
     setter(ign)
     try:
         c["eq_ab"] = bool(a == b)
@@ -119,8 +126,14 @@ def run(tier):
             try:
                 a = D(copy.deepcopy(val), "x", _generated=gen.GEN, _source="s")
                 b = D(copy.deepcopy(val), "x", _generated=gen.GEN, _source="s")
+                # an independently rebuilt copy: new descriptor object, and the generated-class cache has been evicted
+                base._generate_record_class.cache_clear()
+                Dn = RecordDescriptor("t/" + gen.typename_slug(tn), [(tn, "f"), ("string", "g")])
+                bn = Dn(copy.deepcopy(val), "x", _generated=gen.GEN, _source="s")
             except Exception:
                 continue
+            if label != "nan":
+                add(a, bn, set(), {"pair": "copy-after-class-cache-eviction", "type": tn, "class": label})
             built.append((label, val, a))
             nan = label == "nan"
             for ign in (IGNS if thorough else IGNS[:3]):
@@ -165,6 +178,8 @@ def run(tier):
             gb = GroupedRecord("g/x", [mk(qb, nb), C("ls -la", "x", _generated=gen.GEN)])
             add(ga, gb, ign, {"pair": "grouped", "inner": [qa, na, qb, nb], "ign": sorted(ign)})
             add(ga, mk(qa, na), ign, {"pair": "grouped-vs-plain", "ign": sorted(ign)})
+            gc = GroupedRecord("g/x", [mk(qa, na), C("ls -la", "other-g", _generated=gen.GEN)])
+            add(ga, gc, ign, {"pair": "grouped-vary-g", "ign": sorted(ign)})
     ctx.sample({"trace": traces[0], "meta": metas[0]})
     neq = len(traces)
     # scope traces
